@@ -14,14 +14,14 @@ theorem rx_frames (max : Nat) (hmax : max < 2 ^ 32) (ps : List Bytes)
     (cs : Reader) (hcat : cs.flatten = ps.flatMap frame)
     (fuel : Nat) (hf : cs.flatten.length < fuel) :
     rxPump max fuel cs = (ps, .eof) := by
-  sorry
+  exact rxPump_frames max hmax ps hps cs hcat fuel hf
 
 /-- What is delivered (packets and terminal condition) depends only on the byte stream, not
 on its chunking — also for malformed streams. -/
 theorem rx_chunking_independent (max : Nat) (cs cs' : Reader) (h : cs.flatten = cs'.flatten)
     (fuel fuel' : Nat) (hf : cs.flatten.length < fuel) (hf' : cs'.flatten.length < fuel') :
     rxPump max fuel cs = rxPump max fuel' cs' := by
-  sorry
+  exact rxPump_chunking max fuel fuel' cs cs' h hf hf'
 
 /-- A zero or over-limit length prefix after `ps` ends the connection with an error after
 exactly `ps` has been delivered; nothing after it is (mis)framed. -/
@@ -31,19 +31,21 @@ theorem bad_prefix_stops (max : Nat) (hmax : max < 2 ^ 32) (ps : List Bytes)
     (cs : Reader) (hcat : cs.flatten = ps.flatMap frame ++ le32 n ++ tail)
     (fuel : Nat) (hf : cs.flatten.length < fuel) :
     rxPump max fuel cs = (ps, if n = 0 then .zeroLen else .tooLarge) := by
-  sorry
+  exact rxPump_bad_prefix max hmax ps hps n hn32 hbad tail cs hcat fuel hf
 
 /-- No delivered packet (hence no receive allocation) exceeds the limit or is empty. -/
 theorem rx_bounded (max fuel : Nat) (cs : Reader) :
     ∀ p ∈ (rxPump max fuel cs).1, 0 < p.length ∧ p.length ≤ max := by
-  sorry
+  exact rxPump_bounded max fuel cs
 
 /-- A reader whose buffer is too small is told so, and receives exactly the packet's prefix;
 with a large enough buffer it receives the whole packet. -/
 theorem short_buffer_reported (k : Nat) (p : Bytes) :
     (readFrom k p).1 = p.take k ∧ ((readFrom k p).2 = true ↔ k < p.length) ∧
     (p.length ≤ k → readFrom k p = (p, false)) := by
-  sorry
+  refine ⟨rfl, by simp [readFrom], fun h => ?_⟩
+  simp only [readFrom, List.take_of_length_le h]
+  simp; omega
 
 /-- Session: every message (possibly empty, |m| ≤ max) is received exactly once, in order,
 for every chunking. -/
@@ -52,7 +54,7 @@ theorem session_frames (max : Nat) (hmax : max < 2 ^ 32) (ms : List Bytes)
     (cs : Reader) (hcat : cs.flatten = ms.flatMap frame)
     (fuel : Nat) (hf : cs.flatten.length < fuel) :
     recvMsgs max fuel cs = (ms, .eof) := by
-  sorry
+  exact recvMsgs_frames max hmax ms hms cs hcat fuel hf
 
 /-- Session: an over-limit prefix ends the session with an error after exactly `ms`. -/
 theorem session_over_limit_stops (max : Nat) (hmax : max < 2 ^ 32) (ms : List Bytes)
@@ -61,11 +63,11 @@ theorem session_over_limit_stops (max : Nat) (hmax : max < 2 ^ 32) (ms : List By
     (cs : Reader) (hcat : cs.flatten = ms.flatMap frame ++ le32 n ++ tail)
     (fuel : Nat) (hf : cs.flatten.length < fuel) :
     recvMsgs max fuel cs = (ms, .tooLarge) := by
-  sorry
+  exact recvMsgs_over_limit max hmax ms hms n hn32 hbad tail cs hcat fuel hf
 
 theorem session_bounded (max fuel : Nat) (cs : Reader) :
     ∀ m ∈ (recvMsgs max fuel cs).1, m.length ≤ max := by
-  sorry
+  exact recvMsgs_bounded max fuel cs
 
 /-- Non-vacuity: two packets split across awkward chunk boundaries. -/
 example : rxPump 10 100 [[2, 0], [0, 0, 7], [8, 1, 0, 0], [0, 9]] = ([[7, 8], [9]], .eof) := by
